@@ -77,7 +77,7 @@ PROP_RULES = {
     "C01": ["K", "D:POISON", "SEQ-PROV", "GRAMMAR", "ENTRY", "ENTRY-SIB", "CLONE-FIELDS", "MODE-PAIR", "NO-BACKTRACK", "HELPER-PROV", "READER-SIB", "INPUT-MISC", "OVERRIDE-INV", "MACRO-EXPAND"],
     "C02": ["K", "D:POISON", "BUILDER-PROV", "GRAMMAR", "CLONE-FIELDS", "ENTRY-SIB", "MODE-PAIR", "HELPER-PROV", "ALLOC-INV"],
     "C03": ["ENTRY", "K", "STREAM", "D:POISON", "MODE-PURE", "GRAMMAR", "ENTRY-SIB", "SUB-INPUT", "D:KEEP*", "HOOKS-WRITERS", "INPUT-MISC", "MODE-PAIR", "HELPER-PROV", "OVERRIDE-INV", "CTOR-INV", "HOOKS-SAVE-REWIND"],
-    "C04": ["MODE-PAIR", "MODE-PURE", "K", "D:POISON", "ENTRY-SIB", "OVERRIDE-INV"],
+    "C04": ["MODE-PAIR", "MODE-PURE", "K", "D:POISON", "ENTRY-SIB", "OVERRIDE-INV", "REGEX-ANCHOR"],
     "C05": ["D:POISON", "D:KEEP", "D:LIFO", "HOOKS-SAVE-REWIND", "HOOKS-WRITERS", "MODE-PURE", "SUB-INPUT", "K", "MODE-PAIR", "NO-BACKTRACK", "HELPER-PROV", "ENTRY", "ENTRY-SIB", "CTOR-INV"],
     "C07": ["K", "SPAN-PROV", "SPAN-EMPTY", "SPAN-IMPL", "READER-SIB", "INPUT-MISC", "GRAMMAR", "HELPER-PROV", "CTOR-INV"],
     "C10": ["READER-SIB", "SPAN-PROV", "SPAN-EMPTY", "SPAN-IMPL", "STREAM", "INPUT-MISC", "CHAR-SIB", "CHAR-PROV", "GRAMMAR", "HELPER-PROV"],
